@@ -1576,6 +1576,7 @@ func main() {
 	outCoq := flag.String("coq", "", "output Coq file")
 	outJSON := flag.String("json", "", "output JSON description")
 	outGo := flag.String("go", "", "output Go registry for the harness")
+	outFoot := flag.String("footprint", "", "output Coq file with the global-variable footprint of every function")
 	flag.Parse()
 	defer func() {
 		if r := recover(); r != nil {
@@ -1590,6 +1591,9 @@ func main() {
 			panic(r)
 		}
 	}()
+	if *outFoot != "" {
+		writeFootprint(*root, *outFoot)
+	}
 	pkgDirs := []string{"sse-bin/messages", "szse-bin/messages", "bjse-trade-bin/messages", "risk-bin/messages", "sample-bin/messages"}
 	var pkgs []*pkgInfo
 	for _, d := range pkgDirs {
